@@ -81,6 +81,10 @@ func (delegReinvestRewardsTx) Validate(ctx *action.Context, signedTx action.Sign
 	if currency.Name != invest.Amount.Currency {
 		return false, errors.Wrap(action.ErrInvalidAmount, invest.Amount.String())
 	}
+	// the amount must be a valid, non-negative amount of that currency
+	if !invest.Amount.IsValid(ctx.Currencies) {
+		return false, errors.Wrap(action.ErrInvalidAmount, invest.Amount.String())
+	}
 
 	err = invest.Delegator.Err()
 	if err != nil {
